@@ -29,8 +29,12 @@ JMarked(e) ==
       Ach == Achievable(G)
   IN Chk(\A i \in DOMAIN e.marked : \A k \in DOMAIN e.marked[i][2] :
             LET A == e.marked[i][1] E == ToSetI(e.marked[i][2][k]) IN \A S \in Ach : E \subseteq S => A \in S, "marked.sound")
+(* deciding emptiness of an indexed grammar takes exponential time in general and the product grammar has |Q|^2 copies of
+   every rule: a verdict on the product that does not arrive within the call budget decides nothing (the budget is
+   enforced, and reported as a failure, on the small grammars of ig_empty) *)
 JInter(e) ==
-  IF Has(e, "exc") THEN Fl("intersection.noexc")
+  IF Has(e, "slow") THEN {<<"intersection", "UNSPEC">>}
+  ELSE IF Has(e, "exc") THEN Fl("intersection.noexc")
   ELSE LET G == IgOf(e.G)
            D == FA!DetA(FA!Aut(e.A))
        IN Chk((e.res = "nonempty") <=> InterNonEmpty(G, D), "intersection")
